@@ -67,6 +67,8 @@ def below_root(node):
 def expected(prefix, trees, trans, params, dest_opts):
     out = []
     for case in trees:
+        # the export format has no place for the label of the root: the reader calls it VROOT, so do we
+        case = {"sid": case["sid"], "root": dict(case["root"], l="VROOT")}
         tree = M.build(case, T)
         for name in trans:
             with contextlib.redirect_stdout(io.StringIO()), contextlib.redirect_stderr(io.StringIO()):
@@ -342,9 +344,9 @@ def cases_edits(draw, max_tokens=8):
             params["keepall"] = True
         if draw(st.booleans()):
             params["keepcoindex"] = True
-        # no slash annotation here: with non-unique fillers its bottom-up resolution (and whether it gives up with
-        # "no mapping found") depends on the order in which nodes are stored, which differs between a tree built through
-        # the API and the same tree read from a file; the function-level unit of C11 covers slash
+        slash = draw(st.sampled_from([None, None, None, True, "NP,WHNP"]))
+        if slash:
+            params["slash"] = slash
         trans = ["ptb_delete_traces"]
     else:
         words = C11.punct_words() if kind in ("punct", "filter", "filter-twice") else st.sampled_from(["a", "b", "c"])
